@@ -502,6 +502,8 @@ package parser
 
 //@ func (p *Parser) parseBlockStatement
 //@   include ParseFrame
+//@   ensures [C18:wf-block] result2 == nil ==> (forall k int :: {result0.Statements[k]} (0 <= k && k < len(result0.Statements)) ==> result0.Statements[k] != nil)
+//@   loopinv [C18:wf-block-inv] forall k int :: {block.Statements[k]} (0 <= k && k < len(block.Statements)) ==> block.Statements[k] != nil
 //@   ensures [C01,C03,C10:block-complete] result2 == nil ==> len(result0.Statements) == nstmt - old(nstmt)
 //@   loopinv [C01,C03,C10:block-complete-inv] len(block.Statements) == nstmt - old(nstmt)
 //@   ensures [C18:block] result2 == nil ==> (result0 != nil && fresh(result0))
@@ -524,6 +526,8 @@ package parser
 
 //@ func (p *Parser) parseSwitchBlockStatement
 //@   include ParseFrame
+//@   ensures [C18:wf-block] result2 == nil ==> (forall k int :: {result0.Statements[k]} (0 <= k && k < len(result0.Statements)) ==> result0.Statements[k] != nil)
+//@   loopinv [C18:wf-block-inv] forall k int :: {block.Statements[k]} (0 <= k && k < len(block.Statements)) ==> block.Statements[k] != nil
 //@   ensures [C01,C03,C10:block-complete] result2 == nil ==> len(result0.Statements) == nstmt - old(nstmt)
 //@   loopinv [C01,C03,C10:block-complete-inv] len(block.Statements) == nstmt - old(nstmt)
 //@   ensures [C18:block] result2 == nil ==> (result0 != nil && fresh(result0))
@@ -546,6 +550,7 @@ package parser
 
 //@ func (p *Parser) parseStatement
 //@   include ParseFrame
+//@   ensures [C18:wf-stmts] result2 == nil ==> (forall k int :: {result0[k]} (0 <= k && k < len(result0)) ==> result0[k] != nil)
 // C11: the preamble of a switch is placed directly before the switch
 //@   exit [C11:preamble-first] (result2 == nil && old(p.curToken.Type) == token.SWITCH) ==> (lastresult(parseSwitchStatement, 1) != nil
 //@        ? (len(result0) == 2 && typeis(result0[0], ast.CommandStatement) && as(result0[0], ast.CommandStatement) == lastresult(parseSwitchStatement, 1) && typeis(result0[1], ast.SwitchStatement) && as(result0[1], ast.SwitchStatement) == lastresult(parseSwitchStatement, 0))
@@ -824,8 +829,16 @@ package parser
 //@   loopinv [C20:stack-balanced-inv] SameStack(p.breakStack, old(p.breakStack)) && SameStack(p.continueStack, old(p.continueStack))
 //@ end
 
+// ---- what the emitter takes for granted about the tree (its StmtWF / BoolWF), node by node (C18: the lowering never
+// dereferences nil); that every node of a tree has these properties follows by induction over the tree ----
+//@ pred CondNodeOK(c *ast.ConditionExpression, needExpr bool) = allocated(c) && c.Body != nil && allocated(c.Body) && (needExpr ==> c.Expression != nil)
+
 //@ func (p *Parser) parseIfStatement
 //@   include ParseFrame
+//@   ensures [C18:wf-if] result2 == nil ==> (result0 != nil && fresh(result0) && CondNodeOK(result0.Consequence, true)
+//@        && (forall k int :: {result0.ElifConsequences[k]} (0 <= k && k < len(result0.ElifConsequences)) ==> CondNodeOK(result0.ElifConsequences[k], true)))
+//@   loopinv [C18:wf-if-inv] statement != nil && fresh(statement) && CondNodeOK(statement.Consequence, true)
+//@        && (forall k int :: {statement.ElifConsequences[k]} (0 <= k && k < len(statement.ElifConsequences)) ==> CondNodeOK(statement.ElifConsequences[k], true))
 //@   loopinv [C06:slot-inv] impData != nil && fresh(impData) && ImpOK(impData)
 //@   loopinv [C06,C11:complete-inv] ImpSize(impData) == holes - old(holes)
 //@   ensures [C06:slot] result2 == nil ==> (ImpOK(result1) && (result1 == nil || fresh(result1)))
@@ -839,6 +852,7 @@ package parser
 
 //@ func (p *Parser) parseWhileStatement
 //@   include ParseFrame
+//@   ensures [C18:wf-while] result2 == nil ==> (result0 != nil && fresh(result0) && CondNodeOK(result0.Consequence, false))
 //@   ensures [C06:slot] result2 == nil ==> (ImpOK(result1) && (result1 == nil || fresh(result1)))
 //@   modifies holes
 //@   modifies nstmt
@@ -850,6 +864,7 @@ package parser
 
 //@ func (p *Parser) parseDoWhileStatement
 //@   include ParseFrame
+//@   ensures [C18:wf-dowhile] result2 == nil ==> (result0 != nil && fresh(result0) && CondNodeOK(result0.Consequence, true))
 //@   ensures [C06:slot] result2 == nil ==> (ImpOK(result1) && (result1 == nil || fresh(result1)))
 //@   modifies holes
 //@   modifies nstmt
@@ -881,6 +896,8 @@ package parser
 
 //@ func (p *Parser) parseSwitchStatement
 //@   include ParseFrame
+//@   ensures [C18:wf-switch] result3 == nil ==> ((forall k int :: {result0.Cases[k]} (0 <= k && k < len(result0.Cases)) ==> (result0.Cases[k] != nil && result0.Cases[k].Body != nil))
+//@        && ((exists k int :: 0 <= k && k < len(result0.Cases) && result0.Cases[k].IsDefault) ==> result0.DefaultCase != nil))
 // C11: a switch on an AutoVar command returns that command as preamble - whatever its cases look like
 //@   exit [C11:switch-preamble] (result3 == nil && old(p.peek2Token.Type) != token.VAR) ==> (result1 != nil && result1 == lastresult(expectPeekVarOrAutoVar, 1))
 //@   ensures [C18:switch-result] result3 == nil ==> (result0 != nil && fresh(result0))
@@ -901,6 +918,7 @@ package parser
 //@   ensures [C13,C20:dup-case] result3 == nil ==> (forall a int, b int :: {result0.Cases[a], result0.Cases[b]} (0 <= a && a < b && b < len(result0.Cases) && !result0.Cases[a].IsDefault && !result0.Cases[b].IsDefault) ==> result0.Cases[a].Value.Literal != result0.Cases[b].Value.Literal)
 //@   ensures [C20:one-default] result3 == nil ==> (forall a int, b int :: {result0.Cases[a], result0.Cases[b]} (0 <= a && a < b && b < len(result0.Cases)) ==> !(result0.Cases[a].IsDefault && result0.Cases[b].IsDefault))
 //@   loop 2
+//@     invariant [C18:wf-switch-inv] forall a int :: {statement.Cases[a]} (0 <= a && a < len(statement.Cases)) ==> (statement.Cases[a] != nil && statement.Cases[a].Body != nil)
 //@     transition [C03:case-body] called(parseSwitchBlockStatement) ==> (len(statement.Cases) == len(prev(statement.Cases)) + 1
 //@        && statement.Cases[len(prev(statement.Cases))].Body == lastresult(parseSwitchBlockStatement, 0)
 //@        && len(statement.Cases[len(prev(statement.Cases))].Body.Statements) == nstmt - prev(nstmt)
@@ -918,6 +936,7 @@ package parser
 
 //@ func (p *Parser) parseConditionExpression
 //@   include ParseFrame
+//@   ensures [C18:wf-cond] result2 == nil ==> (CondNodeOK(result0, requireExpression) && fresh(result0))
 //@   ensures [C06:slot] result2 == nil ==> (ImpOK(result1) && (result1 == nil || fresh(result1)))
 //@   modifies holes
 //@   modifies nstmt
@@ -969,6 +988,7 @@ package parser
 
 //@ func (p *Parser) parseLeafBooleanExpression
 //@   include ParseFrame
+//@   ensures [C18:wf-leaf] result2 == nil ==> (result0.PreambleStatement != nil ==> result0.PreambleStatement.Name != nil)
 //@   ensures [C02,C18:leaf-there] result2 == nil ==> (result0 != nil && fresh(result0))
 //@   ensures [C18:consume-strict] (result2 == nil && (old(p.curToken.Type) != token.EOF || NoNul(p.l.input))) ==> Left(p) < old(Left(p))
 // C02: '!operand' means unset / zero
@@ -1022,6 +1042,7 @@ package parser
 
 //@ func (p *Parser) parsePoryswitchStatement
 //@   include ParseFrame
+//@   ensures [C18:wf-stmts] result2 == nil ==> (forall k int :: {result0[k]} (0 <= k && k < len(result0)) ==> result0[k] != nil)
 //@   requires [C12:at-poryswitch] p.curToken.Type == token.PORYSWITCH
 //@   ensures [C18:consume-strict] result2 == nil ==> Left(p) < old(Left(p))
 //@   exit [C03,C10,C12:select-stmts] result2 == nil ==> (indom(cases, switchValue) ? result0 == cases[switchValue] : (indom(cases, "_") ? result0 == cases["_"] : len(result0) == 0))
@@ -1038,6 +1059,8 @@ package parser
 
 //@ func (p *Parser) parsePoryswitchStatementCases
 //@   include ParseFrame
+//@   ensures [C18:wf-stmts] result2 == nil ==> (forall key string, k int :: {result0[key][k]} (indom(result0, key) && 0 <= k && k < len(result0[key])) ==> result0[key][k] != nil)
+//@   loopinv [C18:wf-stmts-inv] forall key string, k int :: {statementCases[key][k]} (indom(statementCases, key) && 0 <= k && k < len(statementCases[key])) ==> statementCases[key][k] != nil
 //@   ensures [C12:same-keys] result2 == nil ==> (result0 != nil && result1 != nil && (forall key string :: {indom(result0, key)} {indom(result1, key)} indom(result0, key) == indom(result1, key)))
 //@   loopinv [C12:same-keys-inv] statementCases != nil && fresh(statementCases) && (forall key string :: {indom(statementCases, key)} {indom(impDatas, key)} indom(statementCases, key) == indom(impDatas, key))
 //@   loopinv [C06:slot-inv] impDatas != nil && fresh(impDatas) && (forall key string :: {indom(impDatas, key)} indom(impDatas, key) ==> (ImpOK(impDatas[key]) && (impDatas[key] == nil || fresh(impDatas[key]))))
@@ -1051,6 +1074,8 @@ package parser
 
 //@ func (p *Parser) parsePoryswitchStatements
 //@   include ParseFrame
+//@   ensures [C18:wf-stmts] result2 == nil ==> (forall k int :: {result0[k]} (0 <= k && k < len(result0)) ==> result0[k] != nil)
+//@   loopinv [C18:wf-stmts-inv] forall k int :: {statements[k]} (0 <= k && k < len(statements)) ==> statements[k] != nil
 //@   loopinv [C06:slot-inv] impData != nil && fresh(impData) && ImpOK(impData)
 //@   loopinv [C06:complete-inv] ImpSize(impData) == holes - old(holes)
 //@   ensures [C06:slot] result2 == nil ==> (ImpOK(result1) && (result1 == nil || fresh(result1)))
